@@ -150,7 +150,8 @@ type Sched struct {
 	Values      map[string]any // per-execution storage for shims/harness
 	choose      func(p *Point) int
 	lastKeyText string
-	active      bool // a thread is running (the scheduler goroutine is blocked)
+	active      bool     // a thread is running (the scheduler goroutine is blocked)
+	Enabled     []string // descriptions of the transitions enabled at the current scheduling point
 	accessors   map[*Thread]bool
 }
 
@@ -590,6 +591,7 @@ func (s *Sched) loop() Outcome {
 			p.SameThread[i] = tr.t != nil && tr.t == s.running
 			p.Desc[i] = tr.desc
 		}
+		s.Enabled = p.Desc
 		c := s.choose(&p)
 		if c < 0 {
 			return Cut
